@@ -43,13 +43,15 @@ def setup(run):
 def _chrom_names(rng, dots):
     pre = "chr" if rng.random() < 0.5 else ""
     pool = [pre + x for x in ("1", "2", "3", "10", "11", "19", "22", "X", "Y", "M")]
-    odd = [pre + "1_random", pre + "Un_gl000220", pre + "6_GL000250v2_alt", "GL000192", "scaffold_12", "MT" if not pre else "chrEBV"]
+    # alt/random/Un contigs, incl. families that share a stem and differ only in later digits
+    odd = [pre + "1_random", pre + "Un_gl000220", pre + "Un_gl000221", pre + "6_GL000250v2_alt", pre + "6_GL000251v2_alt", pre + "1_gl000191_random",
+           pre + "1_gl000192_random", "GL000192", "GL000191", "scaffold_12", "scaffold_13", "MT" if not pre else "chrEBV"]
     if dots:
         odd += ["GL000192.1", "KI270728.1", pre + "Un.7"]
     k = int(rng.integers(1, 7))
     names = list(rng.choice(pool, min(k, len(pool)), replace=False))
     if rng.random() < 0.5:
-        names += list(rng.choice(odd, int(rng.integers(1, 4)), replace=False))
+        names += list(rng.choice(odd, int(rng.integers(1, 5)), replace=False))
     return names
 
 
@@ -65,6 +67,9 @@ def _rows(rng, dots=False, n=None):
     if n > 2 and rng.random() < 0.4:
         rows.append(rows[0])                      # duplicate row
         rows.append((rows[1][0], rows[1][1], rows[1][2] + 5, rows[1][3]))   # same start, different end
+    if rng.random() < 0.25:
+        # already ordered by chromosome and start (as `sort -k1,1V -k2,2n` leaves it), equal starts listed longest first
+        return sorted(rows, key=lambda r: (F.canon_key(r[0]) or (9, 0), r[0], r[1], -r[2]))
     order = rng.permutation(len(rows))
     return [rows[i] for i in order]
 
